@@ -80,6 +80,14 @@ def gen(seed, tier, extra=None):
     for n in names_s:
         pool[n] = rng.choice(STR_POOL)
     # nesting: containers holding other pool members; aliases: extra names for the same object
+    rs = stream(seed, 'selfref')
+    for n in names_a + names_o:
+        if rs.random() < 0.12:
+            # a container that contains itself (arrayPush(a, a) / objectSet(o, 'self', o) make these in any program)
+            if pool[n][0] == 'L':
+                pool[n][1].append(['ref', n])
+            else:
+                pool[n][1].append(['self', ['ref', n]])
     for n in names_a + names_o:
         if rng.random() < 0.4:
             other = rng.choice(names_a + names_o)
@@ -88,6 +96,26 @@ def gen(seed, tier, extra=None):
                     pool[n][1].insert(rng.randint(0, len(pool[n][1])), ['ref', other])
                 else:
                     pool[n][1].append([rng.choice(KEYS), ['ref', other]])
+    # a DISTINCT object with the same members in another insertion order, next to an array that holds the original:
+    # value comparison (arrayIndexOf, arraySort) does not depend on the order in which keys were set
+    rq = stream(seed, 'permuted')
+    pool_directed = []
+    if rq.random() < 0.35:
+        src = names_o[0]
+        items = [it for it in pool[src][1] if not (isinstance(it[1], list) and it[1][:1] == ['ref'])]
+        keys = [k for k, _v in pool[src][1]]
+        if len(keys) == len(set(keys)) and len(items) == len(keys):
+            while len(keys) < 2:
+                k = rq.choice([k for k in KEYS if k not in keys])
+                pool[src][1].append([k, rq.choice([0, 1, 'v', None])])
+                keys.append(k)
+            pool['oq'] = ['D', [list(it) for it in reversed(pool[src][1])]]
+            names_o.append('oq')
+            host_name = rq.choice(names_a)
+            host = pool[host_name][1]
+            host.insert(rq.randint(0, len(host)), ['ref', src])
+            pool_directed = [{'fn': fn, 'args': [['var', host_name], ['var', 'oq']]} for fn in
+                             rq.sample(['arrayIndexOf', 'arrayLastIndexOf', 'arrayIndexOf'], 2)]
     for i in range(rng.randint(0, 2)):
         pool[f'al{i}'] = ['alias', rng.choice(names_a + names_o)]
     # host-supplied containers need not be plain list / dict instances: the embedding application may hand over dict
@@ -107,6 +135,10 @@ def gen(seed, tier, extra=None):
         for oi in range(rng.randint(3, 30 if big else 16)):
             ops.append(gen_op(rng, f'c{ci}_{oi}', arrays, objects, strings, n_tmp))
         plan['clients'].append(ops)
+    for j, d in enumerate(pool_directed):
+        ops = plan['clients'][0]
+        ops.insert(rq.randint(0, min(3, len(ops))), {'id': f'c0_q{j}', 'fn': d['fn'], 'args': d['args'], 'target': None,
+                                                     'fault': None})
     return plan
 
 
@@ -157,6 +189,11 @@ def gen_op(rng, op_id, arrays, objects, strings, n_tmp):
         choices = [('null', ['lit', 'null']), ('boolean', ['lit', 'true']), ('number', ['num', 1]), ('string', ['str', 'w']),
                    ('datetime', ['var', 'vDt']), ('array', ['new', 'arrayNew']), ('object', ['new', 'objectNew']),
                    ('function', ['var', 'hostNop']), ('regex', ['var', 'vRe'])]
+        # wrong-typed arguments are often the pool's own (aliased, nested, possibly self-containing) containers
+        if arrays:
+            choices += [('array', ['var', rng.choice(arrays)])] * 2
+        if objects:
+            choices += [('object', ['var', rng.choice(objects)])] * 2
         if kind == 'cmp':
             base = 'function'
             choices = [c for c in choices if c[0] != 'null']      # the compare function is nullable
